@@ -529,8 +529,25 @@ def rerun(inp):
     return chain_case(inp)
 
 
+def F25_C09_falsy_order_key():
+    """repair cb57cf9: an order / cmp key that is a callable object with a False truth value is applied."""
+    for key in S._falsy_keys():
+        for deco, kw in ((attr.s, {}), (attrs.define, {"order": True})):
+            for how in ("order", "cmp"):
+                C = deco(**kw)(type("C", (), {"a": attr.ib(**{how: key})}))
+                if attr.fields(C).a.order_key is not key:
+                    return "%s=%s: Attribute.order_key is %r" % (how, type(key).__name__,
+                                                                  attr.fields(C).a.order_key)
+                # key is abs: -2 orders above 1, and -1 ties with 1
+                if not (C(1) < C(-2)) or C(-2) < C(1) or not (C(-1) <= C(1)) or not (C(1) >= C(-1)) or C(-1) > C(1):
+                    return "%s=%s under %s: key not applied by the ordering methods" % (
+                        how, type(key).__name__, deco.__name__)
+    return None
+
+
 def corpus():
-    return []
+    return [("F25_C09_falsy_order_key", S._safe(F25_C09_falsy_order_key))] + \
+           [(k, S._safe(f)) for k, f in S._shared_corpus("_C09_") if k != "F25_C09_falsy_order_key"]
 
 
 def EXHAUSTIVE(tier):
